@@ -35,9 +35,9 @@ impl Command for CommandImpl {
             match context.arguments[0].parse() {
                 Ok(min) => match context.arguments[1].parse() {
                     Ok(max) => {
-                        if min > max {
+                        if min >= max {
                             CommandResult::Error(
-                                format!("Min value: {} bigger than max value: {}", min, max)
+                                format!("Min value: {} not smaller than max value: {}", min, max)
                                     .to_string(),
                             )
                         } else {
